@@ -312,8 +312,8 @@ class StreamWriter(AbstractStreamWriter):
                 else:
                     # Coalesce headers with compressed data
                     self._writelines((headers_buf, *chunks))
-                await self.drain()
                 self._eof = True
+                await self.drain()
                 return
 
             # Headers already sent, just write compressed data
@@ -324,8 +324,8 @@ class StreamWriter(AbstractStreamWriter):
                 self._writelines(chunks)
             else:
                 self._write(chunks[0])
-            await self.drain()
             self._eof = True
+            await self.drain()
             return
 
         # A declared length bounds the body exactly as it does in write()
@@ -338,8 +338,8 @@ class StreamWriter(AbstractStreamWriter):
         if self._headers_buf and not self._headers_written:
             # Use helper to send headers with payload
             self._send_headers_with_payload(chunk, True)
-            await self.drain()
             self._eof = True
+            await self.drain()
             return
 
         # Handle remaining body
@@ -351,15 +351,16 @@ class StreamWriter(AbstractStreamWriter):
                 )
             else:
                 self._write(b"0\r\n\r\n")
-            await self.drain()
             self._eof = True
+            await self.drain()
             return
 
+        # (the end is marked before waiting for the transport: a caller that
+        # gives up in drain() and a second write_eof() must not end it twice)
+        self._eof = True
         if chunk:
             self._write(chunk)
             await self.drain()
-
-        self._eof = True
 
     async def drain(self) -> None:
         """Flush the write buffer.
